@@ -169,6 +169,19 @@ def check_obligations(prop_id, thorough=False):
     return res
 
 
+MAX_SHARD_BYTES = 600000
+
+
+def _big_stack():
+    """raise the stack limit of a coqc child as far as allowed (large literals are parsed recursively)"""
+    try:
+        import resource
+        soft, hard = resource.getrlimit(resource.RLIMIT_STACK)
+        resource.setrlimit(resource.RLIMIT_STACK, (hard, hard))
+    except Exception:
+        pass
+
+
 class CoqRunner:
     """Evaluates boolean case terms inside Coq (vm_compute); one verdict per case."""
 
@@ -192,8 +205,18 @@ class CoqRunner:
             return [], None
         files = []
         shard = shard or self.shard
-        for si in range(0, len(cases), shard):
-            chunk = cases[si:si + shard]
+        # a shard holds at most `shard` cases and at most MAX_SHARD_BYTES of literals (a multi-megabyte literal
+        # overflows coqc's stack)
+        bounds = []
+        start, size = 0, 0
+        for i, c in enumerate(cases):
+            if i > start and (i - start >= shard or size + len(c) > MAX_SHARD_BYTES):
+                bounds.append((start, i))
+                start, size = i, 0
+            size += len(c)
+        bounds.append((start, len(cases)))
+        for si, sj in bounds:
+            chunk = cases[si:sj]
             self.counter += 1
             name = 'cases_%s_%d' % (re.sub(r'\W', '_', tag), self.counter)
             body = 'Definition cases : list bool := [\n' + ';\n'.join(chunk) + '\n].\n'
@@ -207,7 +230,7 @@ class CoqRunner:
         while pending or running:
             while pending and len(running) < NCPU:
                 si, path = pending.pop(0)
-                p = subprocess.Popen(['timeout', '900', 'coqc', '-Q', THEORIES, 'MP', path],
+                p = subprocess.Popen(['timeout', '900', 'coqc', '-Q', THEORIES, 'MP', path], preexec_fn=_big_stack,
                                      cwd=self.workdir, stdout=subprocess.PIPE, stderr=subprocess.STDOUT, text=True)
                 running.append((si, path, p))
             si, path, p = running.pop(0)
